@@ -2,10 +2,42 @@ import Uquic.Oracle.Frame
 import Uquic.Model.Crypto.KeyPhase
 import Uquic.Model.Crypto.PN
 import Uquic.Spec.KeyPhaseMon
+import Uquic.Model.Crypto.Prim
+import Uquic.Generated.Handshake
 
 open Uquic.Oracle Uquic.Model.KeyPhase Uquic.Spec.KeyPhaseMon
 
+open Uquic.Model.Bytes (toHex ofHex beBytes nonce)
+open Uquic.Model.Prim (hkdfExpandLabel trafficKeys gcmSeal)
+
+/-- the fixed write secret of endpoint `i` in the driver (`byte(17*i + 3*j + 1)`, 32 bytes) -/
+def harnessSecret (i : Nat) : List UInt8 := (List.range 32).map fun j => UInt8.ofNat (17 * i + 3 * j + 1)
+
+/-- one step of the key-update chain as the CODE does it (label regenerated from the source, the same for
+    every version) and as RFC 9001 §6.1 / RFC 9369 §3.3.2 prescribe it -/
+def codeNext (ver : Nat) (s : List UInt8) : List UInt8 :=
+  hkdfExpandLabel s (if ver == 2 then Uquic.Gen.Handshake.keyUpdateLabelV2 else Uquic.Gen.Handshake.keyUpdateLabelV1) 32
+
+/-- write-secret chain of one endpoint: entry `g` = (code's secret, RFC's secret) of generation `g` -/
+abbrev Chain := List (List UInt8 × List UInt8)
+
+def Chain.extend (c : Chain) (ver : Nat) (g : Nat) : Chain := Id.run do
+  let mut c := c
+  for _ in [c.length : g + 1] do
+    match c.getLast? with
+    | some (a, b) => c := c ++ [(codeNext ver a, Uquic.Model.Prim.nextSecret ver b)]
+    | none => c := c
+  return c
+
+/-- the driver's associated data and plaintext of packet `id` -/
+def adOf (bit : Int) (pn : Int) : List UInt8 := [UInt8.ofNat bit.toNat] ++ beBytes 8 pn.toNat
+def msgOf (id : Nat) : List UInt8 := (List.range (id % 7)).map fun i => UInt8.ofNat (id * 31 + i)
+
 structure St where
+  suite : Nat := 0
+  ver : Nat := 1
+  ch0 : Chain := [(harnessSecret 0, harnessSecret 0)]
+  ch1 : Chain := [(harnessSecret 1, harnessSecret 1)]
   env : Env := { pto3 := 600000000, keyUpdateInterval := 100000, firstKeyUpdateInterval := 100,
                  invalidPacketLimit := Uquic.Gen.Protocol.InvalidPacketLimitAES }
   a0 : KA := {}
@@ -16,6 +48,12 @@ structure St where
   mp : List (Nat × PktInfo) := []
   /-- ghost packet table: generation according to the IMPLEMENTATION's report -/
   gp : List (Nat × PktInfo) := []
+
+def St.chain (s : St) (ep : Nat) : Chain := if ep == 0 then s.ch0 else s.ch1
+def St.extend (s : St) (ep : Nat) (g : Nat) : St :=
+  if ep == 0 then { s with ch0 := s.ch0.extend s.ver g } else { s with ch1 := s.ch1.extend s.ver g }
+/-- secrets of the hash function the oracle implements (SHA-256 suites) -/
+def St.sha256Suite (s : St) : Bool := s.suite != 1
 
 def St.a (s : St) (ep : Nat) : KA := if ep == 0 then s.a0 else s.a1
 def St.setA (s : St) (ep : Nat) (a : KA) : St := if ep == 0 then { s with a0 := a } else { s with a1 := a }
@@ -65,7 +103,8 @@ def step (s : St) (op impl : String) : St × StepOut :=
   | "init" =>
     let pto3 := implInt impl "pto3=" 0
     let limit := if (arg 1) % 3 == 2 then Uquic.Gen.Protocol.InvalidPacketLimitChaCha else Uquic.Gen.Protocol.InvalidPacketLimitAES
-    ({ env := { pto3 := pto3, keyUpdateInterval := arg 3, firstKeyUpdateInterval := arg 4, invalidPacketLimit := limit } },
+    ({ suite := (arg 1).toNat % 3, ver := if arg 2 == 2 then 2 else 1,
+       env := { pto3 := pto3, keyUpdateInterval := arg 3, firstKeyUpdateInterval := arg 4, invalidPacketLimit := limit } },
      { model := s!"pto3={pto3} limit={limit}", tags := ["init"] })
   | "confirm" =>
     let a := (s.a ep).setHandshakeConfirmed
@@ -92,9 +131,27 @@ def step (s : St) (op impl : String) : St × StepOut :=
       (if implLen ≠ 16 then [("protected_length", "-", s!"overhead {implLen}")] else [])
     let g := { g with sentInPhase := pn :: g.sentInPhase, monotoneSeal := g.monotoneSeal && decide (pn > g.lastSealed), lastSealed := pn }
     let s := (s.setA ep a2).setG ep g
+    -- the sealed bytes: predicted for TLS_AES_128_GCM_SHA256 from the key-update chain, a witness otherwise
+    let s := if s.suite == 0 then s.extend ep gen.toNat else s
+    let implCt := (implField impl "ct=").getD ""
+    let (ctModel, ctFails) : String × List Fail :=
+      if s.suite == 0 then
+        match (s.chain ep)[gen.toNat]? with
+        | some (codeSec, rfcSec) =>
+          let sealWith (sec : List UInt8) : String :=
+            let ks := trafficKeys s.ver sec
+            toHex (gcmSeal ks.key (nonce ks.iv pn.toNat) (adOf b pn) (msgOf id))
+          let mc := sealWith codeSec
+          let rc := sealWith rfcSec
+          (mc, if implCt ≠ rc then
+            [("aead_matches_rfc", if s.ver == 2 && gen ≥ 1 && implCt == mc then "v2_ku_label" else "-",
+              s!"version {s.ver} generation {gen} pn={pn}: sealed {implCt}, RFC 9001 §6.1 / RFC 9369 §3.3.2 key chain gives {rc}")] else [])
+        | none => (implCt, [])
+      else (implCt, [])
+    let fails := fails ++ ctFails
     ({ s with mp := insert s.mp id { sender := ep, gen := gen, pn := pn, bit := b },
               gp := insert s.gp id { sender := ep, gen := implGen, pn := pn, bit := implBit } },
-     mk (s!"bit={b} gen={gen} len=16 " ++ fmtState a2)
+     mk (s!"bit={b} gen={gen} len=16 ct={ctModel} " ++ fmtState a2)
        ([if rolled then "seal:roll" else "seal:same"] ++ (if a0.firstSentWithCurrentKey = invalidPN then ["seal:first-in-phase"] else []))
        fails)
   | "forge" =>
@@ -182,6 +239,19 @@ def step (s : St) (op impl : String) : St × StepOut :=
     -- (SetLargestAcked overwrites; the ghost keeps the maximum: an accepted ACK stays an ACK)
     ((s.setA ep a).setG ep g, mk ((if okb then "ok " else "E:keyupdate ") ++ fmtState a)
        [if okb then "ack:ok" else "ack:keyupdate"] fails)
+  | "secrets" =>
+    let g := ((s.a ep).keyPhase + 1).toNat
+    if !s.sha256Suite then (s, mk impl ["secrets:sha384-witness"]) else
+    let s := (s.extend 0 g).extend 1 g
+    match (s.chain ep)[g]?, (s.chain (1 - ep))[g]? with
+    | some (sc, sr), some (rc, rr) =>
+      let model := s!"gen={g} nrcv={toHex rc} nsend={toHex sc}"
+      let rfc := s!"gen={g} nrcv={toHex rr} nsend={toHex sr}"
+      let fails : List Fail := if impl ≠ rfc then
+        [("key_update_secret_rfc", if s.ver == 2 && impl == model then "v2_ku_label" else "-",
+          s!"version {s.ver}: next-generation secrets {impl}; RFC 9001 §6.1 / RFC 9369 §3.3.2 give {rfc}")] else []
+      (s, mk model ["secrets", s!"secrets:v{s.ver}"] fails)
+    | _, _ => (s, mk "<chain>" [])
   | "setic" =>
     let a := { s.a ep with invalidPacketCount := s.env.invalidPacketLimit - arg 2 }
     (s.setA ep a, { model := "ok " ++ fmtState a, tags := ["setic"] })
